@@ -53,7 +53,10 @@ type c11Result struct {
 	Words int           `json:"words"` // len(bitmap)
 	Ac    []c11AcOracle `json:"ac"`
 	Rx    []c11RxOracle `json:"rx"`
-	Panic string        `json:"panic,omitempty"`
+	// where AddSet routed the patterns: per bit index that received anything, the number of trie keys,
+	// of automaton keywords and of regexps held after the last AddSet (before Build)
+	Stages [][4]int `json:"stages"` // idx, #trie keys, #keywords, #regexps (sorted by idx)
+	Panic  string   `json:"panic,omitempty"`
 }
 
 func c11Unhex(s string) string {
@@ -135,6 +138,14 @@ func c11Run(c *c11Case) (res c11Result) {
 			pats[i] = c11Unhex(p)
 		}
 		m.AddSet(s.Idx, pats, c11Kind(s.Kind))
+	}
+	if m.err == nil {
+		for i := 0; i < c.BitLen; i++ {
+			nt, na, nr := len(m.toBuildTrie[i]), len(m.toBuildAc[i]), len(m.regexp[i])
+			if nt+na+nr > 0 {
+				res.Stages = append(res.Stages, [4]int{i, nt, na, nr})
+			}
+		}
 	}
 	if err := m.Build(); err != nil {
 		res.Err = err.Error()
